@@ -159,7 +159,7 @@ def catalogue(rnd, quick):
             _add = add
 
             def add(kind, src, _add=_add, **opts):   # noqa: F811
-                _add("offset-after-crlf", src, **opts)
+                _add("offset-after-crlf", src, _orig=kind, **opts)
         add("unknown-tal-statement", pre + '<a tal:«foo»="x">t</a>')
         add("unknown-metal-statement", pre + '<a metal:«foo»="x">t</a>')
         add("unknown-i18n-statement", pre + '<a i18n:«foo»="x">t</a>')
@@ -189,6 +189,12 @@ def catalogue(rnd, quick):
         add("dunder-name-define-after-escape", pre + '<a tal:define="y \';;\'; «__x» 2">t</a>')
         add("dunder-name-define", pre + '<a tal:define="y 1; «__x» 2">t</a>')
         add("reserved-name-repeat", pre + '<a tal:repeat="«econtext» (1,)">t</a>')
+        # ... with global scope, too
+        add("reserved-name-global-define", pre + '<a tal:define="global «econtext» 1">t</a>')
+        add("dunder-name-global-define-2nd", pre + '<a tal:define="x 1; global «__x» 2">t</a>')
+        add("reserved-name-global-tuple", pre + '<a tal:define="global (a, «rcontext») (1, 2)">t</a>')
+        add("reserved-name-global-repeat", pre + '<a tal:repeat="global «econtext» (1,)">t</a>')
+        add("dunder-name-global-repeat-tuple", pre + '<a tal:repeat="global (a, «__b») ((1, 2),)">t</a>')
         add("dunder-name-repeat", pre + '<a tal:repeat="«__i» (1,)">t</a>')
         add("i18n-name-outside", pre + '<a i18n:name="«n»">t</a>')
         add("i18n-name-duplicate", pre + '<p i18n:translate=""><a i18n:name="nm">t</a><b i18n:name="«nm»">u</b></p>')
@@ -229,6 +235,8 @@ def _cases(cases):
     from chameleon.exc import TemplateError
     out = []
     for kind, src, token, off, opts in cases:
+        opts = dict(opts)
+        orig = opts.pop("_orig", kind)
         try:
             PageTemplate(src, **opts)
         except TemplateError as e:
@@ -249,6 +257,21 @@ def _cases(cases):
                 problems.append("str(exc) does not mention the location")
             if problems:
                 out.append((kind, src, "; ".join(problems)))
+            if "\r" in src and not src.startswith("<?xml"):
+                # outside XML mode the positions refer to the text after line-ending normalisation (the offset against the
+                # text as supplied is a recorded finding); token, line and column -- and the token's own source -- are exact
+                norm = src.replace("\r\n", "\n").replace("\r", "\n")
+                p2 = []
+                if norm[toff:toff + len(tok)] != str(tok):
+                    p2.append("normalised source at the offset is %r, token is %r" % (norm[toff:toff + len(tok)], str(tok)))
+                nl, nc = norm.count("\n", 0, toff) + 1, toff - (norm.rfind("\n", 0, toff) + 1)
+                if tuple(e.location) != (nl, nc):
+                    p2.append("location %s, the token stands at line %d column %d" % (tuple(e.location), nl, nc))
+                tsrc = getattr(tok, "source", None)
+                if isinstance(tsrc, str) and tsrc[tok.pos:tok.pos + len(tok)] != str(tok):
+                    p2.append("the token's own source does not hold the token at its position")
+                if p2:
+                    out.append(("crlf-position:" + orig, src, "; ".join(p2)))
         except Exception as e:
             out.append((kind, src, "raised %s (not a TemplateError): %s" % (type(e).__name__, str(e).splitlines()[:1])))
         else:
@@ -272,6 +295,8 @@ def catalogue_part(ctx, rnd, quick):
             bykind.setdefault(kind, []).append((src, why))
     known = {f.get("kind"): f for f in ctx.known() if f.get("kind")}
     for kind, lst in sorted(bykind.items()):
+        if kind.startswith("crlf-position:") and kind.split(":", 1)[1] in known:
+            continue      # the kind itself is a recorded finding (reported for the LF contexts)
         if kind in known:
             ctx.known_finding(known[kind], "%d planted templates, e.g. %r: %s" % (len(lst), lst[0][0], lst[0][1]))
             continue
